@@ -152,6 +152,10 @@ def exec_op(rt, wl, labs, op):
         labs[op["lab"]].min_volume = dec(op["min"])
         labs[op["lab"]].max_volume = dec(op["max"])
         return None
+    if k == "set_wl_max":
+        # `max_volume` is a public attribute of the worklist: a script may change it after construction (other tips)
+        wl.max_volume = dec(op["value"])
+        return None
     if k == "construct":
         # the script builds one more labware (not part of the world); the new object is handed to the oracle
         from .world import build_labware
